@@ -25,7 +25,7 @@ theorem deUint_ser (b : BigUint) (h : UintRep b) (rest : Bytes) :
     rw [deU8_cons, andThen_ok, if_neg (by decide), if_pos rfl, deU64_ser _ hl, andThen_ok, if_neg hlen,
       deListN_ser serU64 deU64 v rest (fun x hxm r => deU64_ser x (hx x hxm) r), andThen_ok]
 
-def RatRep (q : BigRat) : Prop := UintRep q.num ∧ UintRep q.den
+def RatRep (q : BigRat) : Prop := UintRep q.num ∧ UintRep q.den ∧ isZeroU q.den = false
 
 theorem deRat_ser (q : BigRat) (h : RatRep q) (rest : Bytes) :
     deRat (serRat q ++ rest) = .ok (q, rest) := by
@@ -33,10 +33,10 @@ theorem deRat_ser (q : BigRat) (h : RatRep q) (rest : Bytes) :
   cases neg
   · simp only [serRat, List.cons_append, List.nil_append, List.append_assoc, deRat, deU8_cons, andThen_ok,
       Bool.false_eq_true, if_false]
-    rw [if_neg (by decide), deUint_ser n h.1, andThen_ok, deUint_ser d h.2, andThen_ok]; simp
+    rw [if_neg (by decide), deUint_ser n h.1, andThen_ok, deUint_ser d h.2.1, andThen_ok]; simp [h.2.2]
   · simp only [serRat, List.cons_append, List.nil_append, List.append_assoc, deRat, deU8_cons, andThen_ok,
       if_true]
-    rw [if_neg (by decide), deUint_ser n h.1, andThen_ok, deUint_ser d h.2, andThen_ok]; simp
+    rw [if_neg (by decide), deUint_ser n h.1, andThen_ok, deUint_ser d h.2.1, andThen_ok]; simp [h.2.2]
 
 def RealRep : Real → Prop
   | .simple q => RatRep q
